@@ -1,5 +1,6 @@
+from xeng import progs, progs2, progs3
 from . import _common
 
 
 def run(out):
-    _common.run(out, 'C13', s_props=['C13'])
+    _common.run(out, 'C13', x=[dict(fn=progs3.c08_corpus, name='c13', compile_violation=True, filter=lambda p: 'C13' in p.props)], s_props=['C13'])
